@@ -650,3 +650,60 @@ def r11(R):
     R.count(stats)
     for v in vs:
         R.violation(v.node, v.message, g, v.path)
+
+
+# ----------------------------------------------------------------- C12.R12
+@rule('C12.R12', 'a rollback disowns EVERY object created after the '
+      'savepoint, added explicitly or by reachability: what it hands to '
+      '_invalidate_creating is everything in the savepoint store\'s creating '
+      'table that the savepoint\'s own table does not have',
+      props=['C11', 'C14'], min_instances=1)
+def r12(R):
+    conn = R.prog.cls(CONN)
+    f = R.method(conn, '_rollback_savepoint')
+    calls = [c for c in walk_local(f.node) if isinstance(c, ast.Call) and
+             dotted(c.func) == ('self', '_invalidate_creating')]
+    R.require(calls, '_rollback_savepoint no longer disowns created objects')
+    for c in calls:
+        a = c.args[0] if c.args else None
+        R.instance('Connection._rollback_savepoint: %s' % ' '.join(
+            ast.unparse(c).split())[:80])
+        where = (f.module.relpath, f.qualname,
+                 ' '.join(ast.unparse(c).split())[:100], c.lineno)
+        comps = [x for x in ast.walk(a)
+                 if isinstance(x, (ast.GeneratorExp, ast.ListComp,
+                                   ast.SetComp))] if a is not None else []
+        if not comps:
+            continue        # a whole table / a computed difference
+        for comp in comps:
+            for gen in comp.generators:
+                for cond in gen.ifs:
+                    # allowed: (not) membership tests only
+                    bad = [x for x in ast.walk(cond) if isinstance(
+                        x, (ast.Name, ast.Attribute, ast.Compare))
+                        and not _membership_only(cond)]
+                    if bad:
+                        R.violation(
+                            where, '_rollback_savepoint leaves out created '
+                            'objects by a condition other than "the '
+                            'savepoint already had it" (`%s`): an object '
+                            'add()ed after the savepoint keeps its oid and '
+                            'connection although its record is discarded; '
+                            'linking it again commits a dangling reference '
+                            '(POSKeyError in every other connection)' %
+                            ast.unparse(cond),
+                            key='created objects filtered by more than '
+                                'savepoint membership')
+                        break
+
+
+def _membership_only(cond):
+    """`x not in T`, `not x in T`, or an `and` of such."""
+    if isinstance(cond, ast.BoolOp) and isinstance(cond.op, ast.And):
+        return all(_membership_only(v) for v in cond.values)
+    if isinstance(cond, ast.UnaryOp) and isinstance(cond.op, ast.Not):
+        c = cond.operand
+        return isinstance(c, ast.Compare) and len(c.ops) == 1 and \
+            isinstance(c.ops[0], ast.In)
+    return isinstance(cond, ast.Compare) and len(cond.ops) == 1 and \
+        isinstance(cond.ops[0], ast.NotIn)
